@@ -171,6 +171,16 @@ def run(ctx, rep):
     rep.not_decided += ["accuracy in the band where the plain result is finite but inaccurate", "agreement with an extended-range reference"]
     m, kernels = check_scalers(ctx, rep)
     check_threshold(ctx, rep)
+    # the scalers of one evaluation: recorded in a list that is fresh for every call (no mutable default), tested per site (no whole-tensor maximum decides for all sites and
+    # samples at once whether a node is rescaled), and the switch is on unless somebody asked otherwise (JSON default = constructor default)
+    from sa import purity, callbind
+    from sa.report import RuleProxy
+    from props import c10
+    nk = purity.check_mutable_defaults(ctx, RuleProxy(rep, 'C03.P', 'fresh-per-call::'), 'C03.P', only=lambda m_: m_.name == MODULE)
+    rep.ok('C03.P', 'fresh-per-call::kernels-scanned', '', {'functions': nk})
+    c10.check_whole_reductions(ctx, RuleProxy(rep, 'C03.P', 'per-site-decisions::'), only=lambda mn: mn == MODULE)
+    nj = callbind.check_json_defaults(ctx, RuleProxy(rep, 'C03.G', 'json::'), 'C03.G', only=lambda ci: ci.module.name == MODULE)
+    rep.ok('C03.G', 'json::defaults-scanned', '', {'option_defaults_compared': nj})
     rescaling = {n for n, k in kernels.items() if k.scaler is not None}
     plain = {n for n, k in kernels.items() if k.scaler is None}
     # an underflow of the plain kernels must surface as log(0) = -inf (that is what the isinf test of C03.G looks for); in every kernel the log is taken of the
